@@ -52,15 +52,19 @@ pub proof fn axiom_lit_bytes_%d() ensures sb(%s) == seq![%s] {}
     return "".join(out), calls
 
 
-def str_shims(f):
+def str_shims(f, skip=()):
+    """`skip`: method names the caller has already put behind its own (stronger) shims"""
     for meth, shim, ok in STR_SHIMS:
+        if meth in skip:
+            continue
         f.method_to_shim(meth, shim, why="str::%s behind a shim (assumed contract: contracts/text_model.rs)" % meth, arg_ok=ok)
     # `.get(a..b)` / `.get(a..=b)` (total)
-    f.method_to_shim("get", lambda a: "shim_str_get_incl" if "..=" in a else "shim_str_get", arg_ok=lambda a: ".." in a,
-                     why="str::get(range) behind a shim (total: no precondition)")
-    # the range argument `a..b` inside the (now) shim call: `..` => `,`
-    for m in re.finditer(r"\.get\(([^()]*?)(\.\.=?)", f.orig):
-        f.replace_span(m.start(2), m.end(2), ", ", "R2", "range argument passed as two integers")
+    if "get" not in skip:
+        f.method_to_shim("get", lambda a: "shim_str_get_incl" if "..=" in a else "shim_str_get", arg_ok=lambda a: ".." in a,
+                         why="str::get(range) behind a shim (total: no precondition)")
+        # the range argument `a..b` inside the (now) shim call: `..` => `,`
+        for m in re.finditer(r"\.get\(([^()]*?)(\.\.=?)", f.orig):
+            f.replace_span(m.start(2), m.end(2), ", ", "R2", "range argument passed as two integers")
     f.index_range_to_shim(INDEX_SHIMS)
 
 
